@@ -1627,6 +1627,7 @@ func main() {
 			w.Add(b.coq, "search-active-midingest", b.nontr, b.input, b.impl)
 		}
 	}
+	runGen(w, r.Fork(), *tier == "thorough") // gen-* classes: validation of the translated definitions (gen.go)
 	if err := w.Close(); err != nil {
 		panic(err)
 	}
